@@ -33,6 +33,7 @@ func init() {
 			{ID: "C13.R4", Doc: "allocations sized by peer data are guarded by a limit; LimitReader bounds are constants", Run: c13r4},
 			{ID: "C13.S1", Doc: "the packet reader's buffers are bounded by the configured maximum on every cycle", Alias: "C09.R1"},
 			{ID: "C13.S2", Alias: "C08.R1"},
+			{ID: "C13.S3", Doc: "a failed connection or handler is reported through an optional callback only under a non-nil test", Alias: "C05.R10"},
 		}, disciplineRules("C13", "drpcwire", "drpcmetadata", "drpchttp", "drpcstream", "drpcmanager", "drpcerr")...),
 	})
 }
